@@ -22,7 +22,8 @@ func init() {
 	props["C19"] = func(c *Ctx) {
 		c.R.Rule = "the deciding part is Props/C19.lean (kernel-decided equality of the regenerated tables). This stream validates the translator on the Go side: the name tables it extracted from the " +
 			"generated Go sources textually must equal the tables of the compiled generated package (lexer and parser instantiated in-process); and every DSL file of the shared test-data corpus is run " +
-			"through the real Go parser (accepted files must stay accepted). non-trivial = distinct table or corpus file"
+			"through the real Go parser (accepted files must stay accepted); every parse tree for which ANTLR reported no error - corpus files and token-class probes (every identifier-like slot of the grammar x lexemes of every class) - " +
+			"must conform to OpenFGAParser.g4 as translated to Lean on this run (children of every rule node matched by the rule body, labels in place). non-trivial = distinct table, corpus file or accepted probe"
 		p := parser.NewOpenFGAParser(antlr.NewCommonTokenStream(parser.NewOpenFGALexer(antlr.NewInputStream("")), 0))
 		l := parser.NewOpenFGALexer(antlr.NewInputStream(""))
 		tables := map[string][]string{
@@ -59,6 +60,49 @@ func init() {
 			return nil
 		})
 		c.DistN("corpus_files", n)
+		// token-class probes: every identifier-like slot of the grammar filled with lexemes of every class
+		// (plain identifier, each keyword, extended identifiers, numbers, punctuation). No expectation about
+		// acceptance is needed: whenever the Go parser reports no syntax error, the tree it built must be a
+		// derivation by OpenFGAParser.g4 (grammarConform inside dslCorr) - a hand edit of a generated
+		// parser method that accepts a token the grammar excludes shows up here with the text as replay.
+		lexemes := []string{"abc", "model", "schema", "type", "relation", "module", "extend", "define", "relations", "condition", "and", "or", "but", "from", "with",
+			"self", "a.b", "a/b", "a-b", "a_b", "org/core.x", "1.1", "1", "x1", "*", "#", "map", "list", "string", "in", "true", "null"}
+		slots := []string{"MOD", "TYPE", "REL", "RTYPE", "RREL", "CU", "TS", "COND", "PARAM", "WITH"}
+		defaults := map[string]string{"MOD": "core", "TYPE": "doc", "REL": "viewer", "RTYPE": "user", "RREL": "member", "CU": "editor", "TS": "parent", "COND": "c1", "PARAM": "p", "WITH": "c1"}
+		build := func(v map[string]string, modular bool) string {
+			head := "model\n  schema 1.1\n"
+			if modular {
+				head = "module " + v["MOD"] + "\n"
+			}
+			return head + "\ntype user\n\ntype group\n  relations\n    define member: [user]\n\ntype " + v["TYPE"] + "\n  relations\n" +
+				"    define parent: [" + v["TYPE"] + "]\n    define editor: [user]\n" +
+				"    define " + v["REL"] + ": [" + v["RTYPE"] + ", group#" + v["RREL"] + ", user:*, user with " + v["WITH"] + "] or " + v["CU"] + " or " + v["CU"] + " from " + v["TS"] + "\n\n" +
+				"condition " + v["COND"] + "(" + v["PARAM"] + ": string, q: list<int>) {\n  " + "q.size() > 0" + "\n}\n"
+		}
+		for _, slot := range slots {
+			for _, lx := range lexemes {
+				for _, modular := range []bool{false, true} {
+					if slot == "MOD" && !modular {
+						continue
+					}
+					v := map[string]string{}
+					for k, d := range defaults {
+						v[k] = d
+					}
+					v[slot] = lx
+					text := build(v, modular)
+					c.R.Evaluations++
+					_, _, perr := transformer.TransformModularDSLToProto(text)
+					if perr == nil {
+						c.Dist("probe_accepted:" + slot)
+						c.Nontrivial(text)
+					} else {
+						c.Dist("probe_rejected:" + slot)
+					}
+					dslCorr(c, "probe/"+slot, text)
+				}
+			}
+		}
 		c.Sample(map[string]any{"table": "parser-rules", "first": p.RuleNames[0], "count": len(p.RuleNames)})
 	}
 }
